@@ -66,6 +66,9 @@ Exit Codes:
 
 func lintRun(cmd *cobra.Command, args []string) error {
 	// Handle stdin input
+	if err := rejectInputsNextToStdin(args); err != nil {
+		return err
+	}
 	if ShouldReadFromStdin(args) {
 		return lintFromStdin(cmd)
 	}
